@@ -19,7 +19,7 @@ TECHNIQUE = 'bounded-exhaustive words against a reference parser + exhaustive de
 BOUNDS = {'quick': dict(N=6, deep=4), 'thorough': dict(N=7, deep=5)}
 NSL = 32
 
-MATH_CALLS = {'text', 'ensuremath', 'frac', 'equation', 'textbf'}
+MATH_CALLS = {'text', 'ensuremath', 'frac', 'equation', 'textbf', 'MATH'}
 _DEEP = {}
 
 
